@@ -236,6 +236,51 @@ Proof.
     apply (level_cross_Cmp s L f g x y); auto.
 Qed.
 
+Lemma file_disjoint_gen m g :
+  Srt m -> FOK g -> file_disjoint_from ucmp m g = true ->
+  (forall x y, In x m -> In y (fents g) -> ilt y x = true) \/
+  (forall x y, In x m -> In y (fents g) -> ilt x y = true).
+Proof.
+  intros HS Hg H. unfold file_disjoint_from in H.
+  destruct m as [|m0 mr]. left. intros x y [].
+  destruct (FOK_ends ucmp g Hg) as (a & r & E1 & E2 & E3). rewrite E2, E3 in H.
+  destruct Hg as [_ Sg]. rewrite E1 in *.
+  apply orb_true_iff in H. destruct H as [H|H]; [left|right]; intros x y Hx Hy.
+  - eapply (ile_lt_trans ucmp). apply (Srt_last_max ucmp a r y Sg Hy).
+    eapply (ilt_le_trans ucmp). exact H. apply (Srt_hd_min ucmp m0 mr x HS Hx).
+  - eapply (ile_lt_trans ucmp). apply (Srt_last_max ucmp m0 mr x HS Hx).
+    eapply (ilt_le_trans ucmp). exact H. apply (Srt_hd_min ucmp a r y Sg Hy).
+Qed.
+
+Lemma all_entries_split s L in0 in1 e :
+  In e (all_entries s) <->
+  In e (mem s) \/ In e (imm_run s)
+  \/ (exists i f, i <> L /\ i <> S L /\ In f (level_files (levels s) i) /\ In e (fents f))
+  \/ In e (level_entries (remove_files (level_files (levels s) L) in0))
+  \/ In e (level_entries (remove_files (level_files (levels s) (S L)) in1))
+  \/ In e (level_entries (select_files (level_files (levels s) L) in0))
+  \/ In e (level_entries (select_files (level_files (levels s) (S L)) in1)).
+Proof.
+  rewrite all_entries_In. split.
+  - intros [H|[H|(i & f & Hf & He)]]; auto.
+    destruct (Nat.eq_dec i L) as [->|H1].
+    + destruct (select_or_remove _ in0 f Hf) as [H|H].
+      * do 5 right. left. apply level_entries_In. eauto.
+      * do 3 right. left. apply level_entries_In. eauto.
+    + destruct (Nat.eq_dec i (S L)) as [->|H2].
+      * destruct (select_or_remove _ in1 f Hf) as [H|H].
+        -- do 6 right. apply level_entries_In. eauto.
+        -- do 4 right. left. apply level_entries_In. eauto.
+      * right; right; left. exists i, f. auto.
+  - intros [H|[H|[(i & f & _ & _ & Hf & He)|[H|[H|[H|H]]]]]]; auto; right; right;
+      try (apply level_entries_In in H; destruct H as (f & Hf & He)).
+    + eauto.
+    + apply remove_In in Hf. exists L, f. tauto.
+    + apply remove_In in Hf. exists (S L), f. tauto.
+    + apply select_In in Hf. exists L, f. tauto.
+    + apply select_In in Hf. exists (S L), f. tauto.
+Qed.
+
 Section WithCompaction.
 Variables (s : state) (c : compaction).
 Hypothesis HI : SInv s.
@@ -285,17 +330,7 @@ Lemma file_disjoint_spec g :
   FOK g -> file_disjoint_from ucmp merged g = true ->
   (forall x y, In x merged -> In y (fents g) -> ilt y x = true) \/
   (forall x y, In x merged -> In y (fents g) -> ilt x y = true).
-Proof.
-  intros Hg H. pose proof merged_Srt as HS. unfold file_disjoint_from in H.
-  destruct merged as [|m0 mr]. left. intros x y [].
-  destruct (FOK_ends ucmp g Hg) as (a & r & E1 & E2 & E3). rewrite E2, E3 in H.
-  destruct Hg as [_ Sg]. rewrite E1 in *.
-  apply orb_true_iff in H. destruct H as [H|H]; [left|right]; intros x y Hx Hy.
-  - eapply (ile_lt_trans ucmp). apply (Srt_last_max ucmp a r y Sg Hy).
-    eapply (ilt_le_trans ucmp). exact H. apply (Srt_hd_min ucmp m0 mr x HS Hx).
-  - eapply (ile_lt_trans ucmp). apply (Srt_last_max ucmp m0 mr x HS Hx).
-    eapply (ilt_le_trans ucmp). exact H. apply (Srt_hd_min ucmp a r y Sg Hy).
-Qed.
+Proof. intros Hg H. apply file_disjoint_gen; auto. apply merged_Srt. Qed.
 
 (* the guards *)
 Record Guard : Prop := {
@@ -561,5 +596,138 @@ Proof.
 Qed.
 
 End WithCompaction.
+
+
+Lemma compact_state s c s' :
+  do_compact ucmp s c = Some s' ->
+  compaction_guard ucmp s c = true /\
+  exists outs, zip_files (c_outs c) (split_at (c_cuts c) (compaction_kept ucmp s c)) = Some outs /\
+    s' = edit_state s (c_level c) (remove_files (level_files (levels s) (c_level c)) (c_in0 c))
+           (add_files ucmp (remove_files (level_files (levels s) (S (c_level c))) (c_in1 c)) outs) (c_nf c).
+Proof.
+  unfold do_compact. destruct (compaction_guard ucmp s c); [|discriminate].
+  destruct (zip_files (c_outs c) (split_at (c_cuts c) (compaction_kept ucmp s c))) as [outs|]; [|discriminate].
+  intros H. injection H as <-. split; auto. exists outs. split; auto.
+Qed.
+
+Lemma compact_SInv s c s' : SInv s -> do_compact ucmp s c = Some s' -> SInv s'.
+Proof.
+  intros HI H. apply compact_state in H. destruct H as (HG & outs & Hz & ->).
+  apply compact_edit_SInv; auto. apply guard_spec; auto.
+Qed.
+
+Lemma compact_view s c s' k q :
+  SInv s -> do_compact ucmp s c = Some s' -> smallest_snapshot s <= q -> view s' k q = view s k q.
+Proof.
+  intros HI H Hq. apply compact_state in H. destruct H as (HG & outs & Hz & ->).
+  apply compact_edit_view; auto. apply guard_spec; auto.
+Qed.
+
+Lemma compact_sub s c s' e :
+  SInv s -> do_compact ucmp s c = Some s' -> In e (all_entries s') -> In e (all_entries s).
+Proof.
+  intros HI H He. apply compact_state in H. destruct H as (HG & outs & Hz & ->).
+  pose proof (guard_spec s c HG) as G.
+  apply (all_split' s c HI G outs Hz) in He. apply (all_split s c). destruct He as [He|He]; auto.
+  right. apply kept_merged; auto.
+Qed.
+
+Lemma compact_same s c s' : do_compact ucmp s c = Some s' ->
+  last_seq s' = last_seq s /\ snaps s' = snaps s /\ hist s' = hist s.
+Proof.
+  intros H. apply compact_state in H. destruct H as (HG & outs & Hz & ->). auto.
+Qed.
+
+(* ------------------------------------------------------------ OMove *)
+Lemma has_num_single n f : has_num [n] f = true <-> fnum f = n.
+Proof. unfold has_num. cbn [existsb]. rewrite orb_false_r. apply N.eqb_eq. Qed.
+
+Lemma same_num_short l n :
+  NoDup (map fnum l) -> (forall f, In f l -> fnum f = n) -> l = [] \/ exists f, l = [f].
+Proof.
+  intros H1 H2. destruct l as [|f [|g r]]; eauto.
+  exfalso. cbn [map] in H1. inversion H1; subst. apply H3. left.
+  rewrite (H2 f), (H2 g); auto. right; left; auto. left; auto.
+Qed.
+
+Lemma move_state s L n s' :
+  do_move ucmp s L n = Some s' ->
+  move_guard ucmp s L n = true /\
+  s' = edit_state s L (remove_files (level_files (levels s) L) [n])
+         (add_files ucmp (remove_files (level_files (levels s) (S L)) [])
+                    (select_files (level_files (levels s) L) [n])) (next_file s).
+Proof.
+  unfold do_move. destruct (move_guard ucmp s L n); [|discriminate].
+  intros H. injection H as <-. split; auto. rewrite remove_files_nil. reflexivity.
+Qed.
+
+Lemma move_SInv s L n s' : SInv s -> do_move ucmp s L n = Some s' -> SInv s'.
+Proof.
+  intros HI H. apply move_state in H. destruct H as (HG & ->).
+  unfold move_guard in HG. cbn zeta in HG.
+  repeat (apply andb_true_iff in HG; let H' := fresh "G" in destruct HG as [HG H']).
+  set (lvL := level_files (levels s) L) in *.
+  set (lvL1 := level_files (levels s) (S L)) in *.
+  set (i0 := select_files lvL [n]) in *.
+  assert (Hi0: forall f, In f i0 -> In f lvL /\ fnum f = n).
+  { intros f Hf. apply select_In in Hf. rewrite has_num_single in Hf. exact Hf. }
+  assert (Hok: Forall FOK i0).
+  { apply Forall_forall. intros f Hf. apply (si_fok _ _ HI L f). apply Hi0; auto. }
+  assert (Hnd: NoDup (map fnum i0)).
+  { apply NoDup_map_filter. apply (si_nd _ _ HI). }
+  assert (Hss: StronglySorted FB i0).
+  { destruct (same_num_short i0 n Hnd) as [E|(f & E)].
+    - intros f Hf. apply Hi0; auto.
+    - rewrite E. constructor.
+    - rewrite E. constructor; constructor. }
+  apply (edit_SInv ucmp s L [n] [] i0 (next_file s) HI).
+  - clear - HG. lia.
+  - exact Hok.
+  - exact Hss.
+  - intros e He. left. exact He.
+  - apply newer_outside_NO. exact G1.
+  - intros f g Hf Hg. rewrite remove_files_nil in Hg.
+    rewrite forallb_forall in G0. specialize (G0 g Hg).
+    assert (Hgok: FOK g) by (apply (si_fok _ _ HI (S L) g); auto).
+    assert (HS: Srt (level_entries i0)) by (apply level_entries_Srt; auto).
+    assert (Hfm: forall x, In x (fents f) -> In x (level_entries i0)).
+    { intros x Hx. apply level_entries_In. eauto. }
+    destruct (file_disjoint_gen _ g HS Hgok G0) as [H|H].
+    + right. intros y x Hy Hx. apply H; auto.
+    + left. intros x y Hx Hy. apply H; auto.
+  - exact Hnd.
+  - intros f Hf. destruct (Hi0 f Hf) as [Hf1 Hf2]. split.
+    + apply (si_num _ _ HI L f Hf1).
+    + intros j g Hg. destruct (Nat.eq_dec j L) as [->|Hne].
+      * rewrite level_files_set_eq in Hg.
+        -- apply remove_In in Hg. destruct Hg as [_ Hg]. intros E.
+           assert (has_num [n] g = true) by (apply has_num_single; congruence). congruence.
+        -- rewrite (si_len _ _ HI). clear - HG. lia.
+      * rewrite level_files_set_neq in Hg; auto.
+        apply (proj2 (si_nd _ _ HI) j L g f); auto.
+  - lia.
+Qed.
+
+Lemma move_all_entries s L n s' e :
+  SInv s -> do_move ucmp s L n = Some s' -> (In e (all_entries s') <-> In e (all_entries s)).
+Proof.
+  intros HI H. apply move_state in H. destruct H as (HG & ->).
+  assert (HL: (S L < NUM_LEVELS)%nat).
+  { unfold move_guard in HG. cbn zeta in HG.
+    repeat (apply andb_true_iff in HG; let H' := fresh "G" in destruct HG as [HG H']).
+    clear - HG. lia. }
+  rewrite (edit_all_entries ucmp s L [n] [] _ (next_file s) HI HL).
+  rewrite (all_entries_split s L [n] []).
+  assert (E: level_entries (select_files (level_files (levels s) (S L)) []) = []).
+  { unfold select_files. cbn [has_num existsb].
+    induction (level_files (levels s) (S L)); cbn [filter]; auto. }
+  rewrite E. cbn [In]. tauto.
+Qed.
+
+Lemma move_same s L n s' : do_move ucmp s L n = Some s' ->
+  last_seq s' = last_seq s /\ snaps s' = snaps s /\ hist s' = hist s.
+Proof.
+  intros H. apply move_state in H. destruct H as (HG & ->). auto.
+Qed.
 
 End Compact.
